@@ -44,10 +44,9 @@ def main():
     try:
         rc0, o0 = sh(f"timeout 900 /venv/bin/python -W ignore {d}/demo.py", cwd=wt, env=env)
         out["ran"]["demo_unchanged_exit"] = rc0
+        rca, oa = sh(f"git -C {wt} apply {d}/patch.diff")
         if (d / "apply.sh").exists():
             rca, oa = sh(f"bash {d}/apply.sh {wt}")
-        else:
-            rca, oa = sh(f"git -C {wt} apply {d}/patch.diff")
         out["ran"]["patch_applies"] = rca == 0
         if rca:
             out["ran"]["patch_error"] = oa[-400:]
